@@ -93,7 +93,12 @@ def membersOf (j : Json) : Option (List (Bytes × JVal)) :=
   | _ => none
 
 def runCase (j : Json) : Json :=
-  let cfg := Cfg.current
+  -- `"cfg": "fixed" | "pinned"` in a case overrides the configuration (used to validate the model of the repaired code
+  -- against a patched build, and by seeded mutations); normal cases carry no such member
+  let cfg := match strOpt j "cfg" with
+    | some "fixed" => Cfg.fixed
+    | some "pinned" => Cfg.pinned
+    | _ => Cfg.current
   let kind := str! j "kind"
   let prim := (j.getObjVal? "prim").toOption.getD (Json.mkObj [])
   let P := prims prim
